@@ -3,6 +3,7 @@
 package gen
 
 import (
+	"encoding/binary"
 	"fmt"
 	"reflect"
 	"strings"
@@ -37,6 +38,57 @@ func (g G) Str(n int) string {
 	return string(b)
 }
 
+// plausible text: values an operator or a device really puts into string fields, in forms that a "helpful" encoder
+// would normalise (IPv4-mapped IPv6 literals, upper-case host names, trailing dots and spaces, leading zeros, default
+// ports): string fields are opaque to the protocol and must come back exactly as given.
+var plausibleText = []string{
+	"::ffff:10.0.0.1", "::FFFF:192.168.1.1", "0:0:0:0:0:ffff:a00:1", "::ffff:0a00:0001", "::ffff:127.0.0.1", "::1", "[::1]", "::",
+	"127.0.0.1", "010.001.001.001", "1.2.3.4", "1.2.3.04", "0x7f.0.0.1", "2001:db8::1", "2001:0db8:0000:0000:0000:0000:0000:0001",
+	"2001:DB8::1", "fe80::1%eth0", "192.168.1.1:8080", "localhost", "LOCALHOST", "0.0.0.0", "255.255.255.255", "1.2.3", "1.2.3.4.",
+	"EXAMPLE.COM", "example.com.", "Example.Com", "http://a.com:80/", "HTTP://A.COM", "http://a.com/%7e", "a.com/../b", "ftp://u:p@h/x",
+	"xn--fiq228c.cn", "a.com:0808", "https://a.com:443",
+	" lead", "trail ", "\ttab", "a  b", "x\r\n", "x\n", " ", "  ",
+	"007", "+8613800138000", "013800138000", "1e3", "0x10", "1.0", "-0", "+1", "00", "0", "1,000",
+	"AbC", "TRUE", "true", "null", "NaN", "nil",
+	"a/../b", "./a", "a//b", "C:\\x", "/", "a/", "..",
+	"%41", "%7E", "&amp;", "\\n", "a+b", "a%20b",
+	"CMNET", "cmnet", "3gnet", "CMNET ", "card", "",
+}
+
+// Plausible: a dictionary text of at most max bytes ("" and false when none fits).
+func (g G) Plausible(max int) (string, bool) {
+	for try := 0; try < 6; try++ {
+		t := plausibleText[g.Intn(len(plausibleText))]
+		if len(t) <= max {
+			return t, true
+		}
+	}
+	return "", false
+}
+
+// Enum8: a byte that is an enumeration on the wire: half the time one of the first few values (0 included)
+func (g G) Enum8() byte {
+	if g.Chance(1, 2) {
+		return byte(g.Intn(6))
+	}
+	return g.U8()
+}
+
+// magic words: the first bytes of file formats and of this protocol's own markers, as values of 32-bit fields
+var magicWords = []uint32{0xFFD8FFE0, 0xFFD8FFE1, 0xFFD8FFDB, 0xFFD8FF00, 0x89504E47, 0x47494638, 0x52494646, 0x00000001, 0x000001BA, 0x000001B3,
+	0x49443303, 0xFFFB9000, 0xFFF15080, 0x1A45DFA3, 0x66747970, 0x7E7E7E7E, 0x7D017D02, 0x7D027D01, 0x30316364, 0x3031636400 >> 8, 0x23232323, 0x2A2A2A2A}
+
+// Word32: a 32-bit field value: mostly uniform, sometimes a magic word, sometimes a small number
+func (g G) Word32() uint32 {
+	switch g.Intn(10) {
+	case 0:
+		return magicWords[g.Intn(len(magicWords))]
+	case 1:
+		return uint32(g.Intn(4))
+	}
+	return g.U32()
+}
+
 // Len8: length of a string carried behind a one-byte length prefix: mostly small (0..small), every fourth time anywhere
 // in 0..255 with the boundary values over-represented (byte arithmetic on offsets wraps beyond 255 - header size).
 func (g G) Len8(small int) int {
@@ -65,6 +117,17 @@ func (g G) Fixed(max int, both bool) string {
 	} else {
 		b = g.Bytes(n)
 	}
+	if g.Chance(1, 8) {
+		if t, ok := g.Plausible(max); ok {
+			b = []byte(t)
+			if g.Chance(1, 3) { // a device that pads with spaces up to the full width
+				for len(b) < max {
+					b = append(b, ' ')
+				}
+			}
+			n = len(b)
+		}
+	}
 	if n > 0 {
 		if b[n-1] == 0 {
 			b[n-1] = 0x41
@@ -85,10 +148,22 @@ func (g G) NoNul(max int) string {
 			b[i] = 0x30
 		}
 	}
+	if g.Chance(1, 8) {
+		if t, ok := g.Plausible(max); ok {
+			return t
+		}
+	}
 	return string(b)
 }
 
 func (g G) TS() string {
+	switch g.Intn(8) {
+	case 0, 1, 2: // a date that exists (renderers that compute with times only get going on those)
+		return fmt.Sprintf("20%02d-%02d-%02d %02d:%02d:%02d", g.Intn(100), 1+g.Intn(12), 1+g.Intn(28), g.Intn(24), g.Intn(60), g.Intn(60))
+	case 3:
+		return []string{"2000-01-01 00:00:00", "2099-12-31 23:59:59", "2024-02-29 12:00:00", "2023-02-29 12:00:00", "2000-00-00 00:00:00",
+			"2024-12-31 23:59:60", "2038-01-19 03:14:07", "2038-01-19 03:14:08", "2070-01-01 00:00:00", "2024-10-01 12:30:00"}[g.Intn(10)]
+	}
 	return fmt.Sprintf("20%02d-%02d-%02d %02d:%02d:%02d", g.Intn(100), g.Intn(100), g.Intn(100), g.Intn(100), g.Intn(100), g.Intn(100))
 }
 
@@ -253,6 +328,11 @@ func gbkUTF8Pairs() []string {
 func (g G) GBK(maxRunes int) string {
 	rs := GBKRunes()
 	n := g.Intn(maxRunes + 1)
+	if g.Chance(1, 12) {
+		if t, ok := g.Plausible(maxRunes); ok {
+			return t
+		}
+	}
 	if n >= 2 && g.Chance(1, 12) {
 		if ps := gbkUTF8Pairs(); len(ps) > 0 {
 			out := []rune(ps[g.Intn(len(ps))])
@@ -286,7 +366,71 @@ func (g G) GBK(maxRunes int) string {
 }
 
 func (g G) Loc() model.T0x0200LocationItem {
-	return model.T0x0200LocationItem{AlarmSign: g.U32(), StatusSign: g.U32(), Latitude: g.U32(), Longitude: g.U32(), Altitude: g.U16(), Speed: g.U16(), Direction: g.U16(), DateTime: g.TS()}
+	return model.T0x0200LocationItem{AlarmSign: g.Word32(), StatusSign: g.Word32(), Latitude: g.Word32(), Longitude: g.Word32(), Altitude: g.U16(), Speed: g.U16(), Direction: g.U16(), DateTime: g.TS()}
+}
+
+// LocAfter: the next item of a batch given the previous one: a fresh item, an identical one (a parked vehicle), one that
+// differs in a single field, or one whose fields hold the previous item's hex digits shifted across a field boundary
+// (alarm 0x12,status 0x3 after alarm 0x1,status 0x23: anything that identifies items by their concatenated fields confuses them).
+func (g G) LocAfter(prev model.T0x0200LocationItem) model.T0x0200LocationItem {
+	it := prev
+	switch g.Intn(5) {
+	case 0:
+		return it
+	case 1:
+		switch g.Intn(7) {
+		case 0:
+			it.AlarmSign ^= 1 << g.Intn(32)
+		case 1:
+			it.StatusSign ^= 1 << g.Intn(32)
+		case 2:
+			it.Latitude++
+		case 3:
+			it.Longitude--
+		case 4:
+			it.Altitude++
+		case 5:
+			it.Speed++
+		case 6:
+			it.Direction++
+		}
+		return it
+	}
+	return g.Loc()
+}
+
+// LocShiftable: an item whose neighbouring fields are small numbers (so that LocAfter's digit shift applies to it)
+func (g G) LocShiftBase() (first, second model.T0x0200LocationItem) {
+	hexlen := func(v uint32) uint {
+		n := uint(1)
+		for v >= 16 {
+			v >>= 4
+			n++
+		}
+		return n
+	}
+	first = g.Loc()
+	a, b := uint32(0x10+g.Intn(0xff0)), uint32(g.Intn(0x1000))
+	if a&15 == 0 {
+		a |= 1 + uint32(g.Intn(15))
+	}
+	a2, b2 := a>>4, (a&15)<<(4*hexlen(b))|b
+	second = first
+	switch g.Intn(4) {
+	case 0:
+		first.AlarmSign, first.StatusSign = a, b
+		second.AlarmSign, second.StatusSign = a2, b2
+	case 1:
+		first.StatusSign, first.Latitude = a, b
+		second.StatusSign, second.Latitude = a2, b2
+	case 2:
+		first.Latitude, first.Longitude = a, b
+		second.Latitude, second.Longitude = a2, b2
+	case 3:
+		first.Altitude, first.Speed = uint16(a), uint16(b)
+		second.Altitude, second.Speed = uint16(a2), uint16(b2)
+	}
+	return
 }
 
 func IDLen(d consts.ActiveSafetyType) int {
@@ -412,15 +556,34 @@ func BigCases(g G) []TCase {
 	}
 	for _, n := range []int{2184, 2185, 2400} {
 		t := &model.T0x0704{Num: uint16(n), LocationType: g.U8()}
+		near := g.Chance(1, 2) // a batch from a vehicle that hardly moved: identical and nearly identical items
+		var pending *model.T0x0200LocationItem
 		for i := 0; i < n; i++ {
-			t.Items = append(t.Items, model.T0x0704LocationItem{Len: 28, T0x0200LocationItem: g.Loc()})
+			var it model.T0x0200LocationItem
+			switch {
+			case pending != nil:
+				it, pending = *pending, nil
+			case near && g.Chance(1, 3):
+				var nx model.T0x0200LocationItem
+				it, nx = g.LocShiftBase()
+				pending = &nx
+			case near && i > 0:
+				it = g.LocAfter(t.Items[i-1].T0x0200LocationItem)
+			default:
+				it = g.Loc()
+			}
+			t.Items = append(t.Items, model.T0x0704LocationItem{Len: 28, T0x0200LocationItem: it})
 		}
 		out = append(out, TCase{Name: fmt.Sprintf("T0x0704/%d-items", n), Type: "T0x0704", ID: 0x0704, Ver: V13, Val: t, Mk: func() TwoWay { return &model.T0x0704{} }})
 	}
 	for _, n := range []int{2340, 2341, 4000} {
 		t := &model.T0x1205{SerialNumber: g.U16(), AudioVideoResourceTotal: uint32(n)}
 		for i := 0; i < n; i++ {
-			t.AudioVideoResourceList = append(t.AudioVideoResourceList, model.T0x1205AudioVideoResource{ChannelNo: g.U8(), StartTime: g.TS(), EndTime: g.TS(), AlarmFlag: g.U64(), AudioVideoResourceType: g.U8(), StreamType: g.U8(), MemoryType: g.U8(), FileSizeByte: g.U32()})
+			st, et := g.TS(), g.TS()
+			if g.Chance(1, 3) { // a resource of zero length: start and end the same instant
+				et = st
+			}
+			t.AudioVideoResourceList = append(t.AudioVideoResourceList, model.T0x1205AudioVideoResource{ChannelNo: g.U8(), StartTime: st, EndTime: et, AlarmFlag: g.U64(), AudioVideoResourceType: g.U8(), StreamType: g.U8(), MemoryType: g.U8(), FileSizeByte: g.U32()})
 		}
 		out = append(out, TCase{Name: fmt.Sprintf("T0x1205/%d-resources", n), Type: "T0x1205", ID: 0x1205, Ver: V13, Val: t, Mk: func() TwoWay { return &model.T0x1205{} }})
 	}
@@ -460,13 +623,39 @@ func Cases(g G) []TCase {
 	{
 		n := 1 + g.ListLen(30) // parser demands >= 31 bytes: at least one item
 		t := &model.T0x0704{Num: uint16(n), LocationType: g.U8()}
+		near := g.Chance(1, 2) // a batch from a vehicle that hardly moved: identical and nearly identical items
+		var pending *model.T0x0200LocationItem
 		for i := 0; i < n; i++ {
-			t.Items = append(t.Items, model.T0x0704LocationItem{Len: 28, T0x0200LocationItem: g.Loc()})
+			var it model.T0x0200LocationItem
+			switch {
+			case pending != nil:
+				it, pending = *pending, nil
+			case near && g.Chance(1, 3):
+				var nx model.T0x0200LocationItem
+				it, nx = g.LocShiftBase()
+				pending = &nx
+			case near && i > 0:
+				it = g.LocAfter(t.Items[i-1].T0x0200LocationItem)
+			default:
+				it = g.Loc()
+			}
+			t.Items = append(t.Items, model.T0x0704LocationItem{Len: 28, T0x0200LocationItem: it})
 		}
 		add("T0x0704", "T0x0704", 0x0704, V13, t, func() TwoWay { return &model.T0x0704{} })
 	}
-	add("T0x0800", "T0x0800", 0x0800, V13, &model.T0x0800{MultimediaID: g.U32(), MultimediaType: g.U8(), MultimediaFormatEncode: g.U8(), EventItemEncode: g.U8(), ChannelID: g.U8()}, func() TwoWay { return &model.T0x0800{} })
-	add("T0x0801", "T0x0801", 0x0801, V13, &model.T0x0801{MultimediaID: g.U32(), MultimediaType: g.U8(), MultimediaFormatEncode: g.U8(), EventItemEncode: g.U8(), ChannelID: g.U8(), T0x0200LocationItem: g.Loc(), MultimediaPackage: g.Bytes(g.ListLen(900))}, func() TwoWay { return &model.T0x0801{} })
+	add("T0x0800", "T0x0800", 0x0800, V13, &model.T0x0800{MultimediaID: g.Word32(), MultimediaType: g.Enum8(), MultimediaFormatEncode: g.Enum8(), EventItemEncode: g.Enum8(), ChannelID: g.Enum8()}, func() TwoWay { return &model.T0x0800{} })
+	{
+		// multimedia upload whose location block starts like a media file (and the reverse: media data that starts like a
+		// location block): a parser that sniffs the payload to guess the layout mistakes one for the other
+		loc := g.Loc()
+		loc.AlarmSign = magicWords[g.Intn(len(magicWords))]
+		pkg := g.Bytes(g.ListLen(900))
+		if len(pkg) >= 4 && g.Bool() {
+			binary.BigEndian.PutUint32(pkg, magicWords[g.Intn(len(magicWords))])
+		}
+		add("T0x0801/magic", "T0x0801", 0x0801, V13, &model.T0x0801{MultimediaID: g.Word32(), MultimediaType: byte(g.Intn(3)), MultimediaFormatEncode: byte(g.Intn(3)), EventItemEncode: g.Enum8(), ChannelID: g.Enum8(), T0x0200LocationItem: loc, MultimediaPackage: pkg}, func() TwoWay { return &model.T0x0801{} })
+	}
+	add("T0x0801", "T0x0801", 0x0801, V13, &model.T0x0801{MultimediaID: g.Word32(), MultimediaType: g.Enum8(), MultimediaFormatEncode: g.Enum8(), EventItemEncode: g.Enum8(), ChannelID: g.Enum8(), T0x0200LocationItem: g.Loc(), MultimediaPackage: g.Bytes(g.ListLen(900))}, func() TwoWay { return &model.T0x0801{} })
 	{
 		n := g.ListLen(250)
 		t := &model.T0x0805{RespondSerialNumber: g.U16(), Result: g.U8(), MultimediaIDNumber: uint16(n)}
@@ -481,7 +670,11 @@ func Cases(g G) []TCase {
 		n := g.ListLen(36)
 		t := &model.T0x1205{SerialNumber: g.U16(), AudioVideoResourceTotal: uint32(n)}
 		for i := 0; i < n; i++ {
-			t.AudioVideoResourceList = append(t.AudioVideoResourceList, model.T0x1205AudioVideoResource{ChannelNo: g.U8(), StartTime: g.TS(), EndTime: g.TS(), AlarmFlag: g.U64(), AudioVideoResourceType: g.U8(), StreamType: g.U8(), MemoryType: g.U8(), FileSizeByte: g.U32()})
+			st, et := g.TS(), g.TS()
+			if g.Chance(1, 3) { // a resource of zero length: start and end the same instant
+				et = st
+			}
+			t.AudioVideoResourceList = append(t.AudioVideoResourceList, model.T0x1205AudioVideoResource{ChannelNo: g.U8(), StartTime: st, EndTime: et, AlarmFlag: g.U64(), AudioVideoResourceType: g.U8(), StreamType: g.U8(), MemoryType: g.U8(), FileSizeByte: g.U32()})
 		}
 		add("T0x1205", "T0x1205", 0x1205, V13, t, func() TwoWay { return &model.T0x1205{} })
 	}
@@ -526,6 +719,9 @@ func Cases(g G) []TCase {
 	add("P0x8801", "P0x8801", 0x8801, V13, &model.P0x8801{ChannelID: g.U8(), ShootCommand: g.U16(), PhotoIntervalOrVideoTime: g.U16(), SaveFlag: g.U8(), Resolution: g.U8(), VideoQuality: g.U8(), Intensity: g.U8(), Contrast: g.U8(), Saturation: g.U8(), Chroma: g.U8()}, func() TwoWay { return &model.P0x8801{} })
 	{
 		ip := g.Raw(g.Len8(30))
+		if g.Chance(1, 3) {
+			ip, _ = g.Plausible(255)
+		}
 		add("P0x9101", "P0x9101", 0x9101, V13, &model.P0x9101{ServerIPLen: byte(len(ip)), ServerIPAddr: ip, TcpPort: g.U16(), UdpPort: g.U16(), ChannelNo: g.U8(), DataType: g.U8(), StreamType: g.U8()}, func() TwoWay { return &model.P0x9101{} })
 		add("P0x9201", "P0x9201", 0x9201, V13, &model.P0x9201{ServerIPLen: byte(len(ip)), ServerIPAddr: ip, TcpPort: g.U16(), UdpPort: g.U16(), ChannelNo: g.U8(), MediaType: g.U8(), StreamType: g.U8(), MemoryType: g.U8(), PlaybackWay: g.U8(), PlaySpeed: g.U8(), StartTime: g.TS(), EndTime: g.TS()}, func() TwoWay { return &model.P0x9201{} })
 	}
